@@ -74,6 +74,13 @@ class Impl:
         self.net, self.sent, self.sendfail_n = {'timeout': set(), 'error': set(), 'sendfail': set()}, [], 0
 
     def close(self):
+        t = self.protocol.maintaing_routing_task
+        if t is not None and not t.done():
+            t.cancel()
+            try:
+                self.loop.run_until_complete(asyncio.gather(t, return_exceptions=True))
+            except BaseException:  # noqa
+                pass
         self.loop.close()
 
     @staticmethod
@@ -162,13 +169,147 @@ class Impl:
                 reply = ResponseDatagram(RESPONSE_TYPE, msg.rpc_id, nid, b'pong').bencode()
             impl.loop.call_soon(impl.protocol.datagram_received, reply, addr)
 
-    def add_real(self, peer, cls):
-        """cls: {'timeout': keys, 'error': keys, 'sendfail': keys}; every other contact answers its ping.
-        Returns (result, contacts a ping was addressed to, virtual seconds that passed)"""
+    def _attach(self, cls):
         if self.protocol.transport is None:
             self.protocol.connection_made(self._Transport(self))
         self.net = {k: set(cls.get(k, ())) for k in ('timeout', 'error', 'sendfail')}
         self.sent = []
+
+    def _spin(self, n=12):
+        for _ in range(n):
+            self.loop.run_until_complete(asyncio.sleep(0))
+
+    def ping(self, contact, cls):
+        """any other rpc to a contact: KademliaProtocol.get_rpc_peer(contact).ping()"""
+        self._attach(cls)
+        start = self.now
+        task = self.loop.create_task(self.protocol.get_rpc_peer(contact).ping())
+        while not task.done():
+            self._spin()
+            if not task.done():
+                self.now += 1
+            if self.now - start > 60:
+                task.cancel()
+                self._spin(2)
+                return 'Stuck', self.sent, self.now - start
+        try:
+            ret = 'reply' if task.result() == b'pong' else repr(task.result())
+        except OSError:
+            ret = 'OSError'
+        except Exception as e:  # noqa
+            ret = type(e).__name__
+        return ret, self.sent, self.now - start
+
+    def settle_events(self):
+        """after an rpc outside the task: whatever the running task does with what that rpc queued (a reply re-queues the
+        responder; a failure may queue its removal)"""
+        if not self.task_started():
+            return [], None
+        self._record_table_calls()
+        del self.events[:]
+        dead = self.settle()
+        return list(self.events), dead
+
+    def _record_table_calls(self):
+        """note every call routing_table_task makes on the table (instance-level wrappers that delegate to the real methods)"""
+        if getattr(self, 'events', None) is not None:
+            return
+        self.events, self.depth = [], 0
+        rt, real_add, real_remove = self.rt, self.rt.add_peer, self.rt.remove_peer
+
+        async def add_peer(peer, probe):
+            top = self.depth == 0
+            if top:
+                ev = {'kind': 'add', 'peer': self.triple(peer), 't0': self.now, 'before': self.contacts(),
+                      'facts': self.facts(), 'sent0': len(self.sent), 'ret': 'Pending'}
+                self.events.append(ev)
+            self.depth += 1
+            try:
+                r = await real_add(peer, probe)
+                if top:
+                    ev['ret'] = repr(r)
+                return r
+            except OSError:
+                if top:
+                    ev['ret'] = 'OSError'
+                raise
+            except BaseException as e:  # noqa
+                if top:
+                    ev['ret'] = type(e).__name__
+                raise
+            finally:
+                self.depth -= 1
+                if top:
+                    ev.update(t1=self.now, after=self.contacts(), table=self.table(), probed=self.sent[ev['sent0']:])
+
+        def remove_peer(peer):
+            if self.depth == 0 and peer.node_id:
+                self.events.append({'kind': 'remove', 'peer': self.triple(peer), 't0': self.now, 'before': self.contacts()})
+                r = real_remove(peer)
+                self.events[-1].update(t1=self.now, table=self.table())
+                return r
+            return real_remove(peer)
+
+        rt.add_peer, rt.remove_peer = add_peer, remove_peer
+
+    def task_started(self):
+        return self.protocol.maintaing_routing_task is not None
+
+    def settle(self, start=None, hand_over=None):
+        """let the running routing_table_task work on the virtual clock until it is idle (or dead); `hand_over` is called
+        once, as soon as the task is suspended in a liveness probe or has finished its first contact"""
+        proto = self.protocol
+        task = proto.maintaing_routing_task
+        start = self.now if start is None else start
+        handed, idle = hand_over is None, 0
+        while self.now - start < 90:
+            self._spin()
+            if task.done():
+                break
+            if not handed and (self.sent or (self.events and self.depth == 0)):
+                hand_over()
+                handed = True
+                continue
+            busy = self.depth > 0 or proto._to_add or proto._to_remove or proto._wakeup_routing_task.is_set()
+            if handed and not busy:
+                idle += 1
+                if idle >= 2:
+                    break
+            self.now += 1
+        if not handed:
+            hand_over()
+        dead = None
+        if task.done():
+            try:
+                task.result()
+                dead = 'returned'
+            except BaseException as e:  # noqa
+                dead = 'OSError' if isinstance(e, OSError) else type(e).__name__
+        return dead
+
+    def run_task(self, first, during, cls):
+        """the real KademliaProtocol.routing_table_task: `first` is handed to KademliaProtocol.add_peer; as soon as the
+        task is suspended in a liveness probe (or has finished that contact) the contacts of `during` are handed over too;
+        then the loop runs on the virtual clock until the task is idle again.  Returns the recorded table calls."""
+        self._attach(cls)
+        self._record_table_calls()
+        del self.events[:]
+        proto = self.protocol
+        if proto.maintaing_routing_task is None:
+            proto.start()
+        start = self.now
+        proto.add_peer(first)
+
+        def hand_over():
+            for c in during:
+                proto.add_peer(c)
+        dead = self.settle(start, hand_over)
+        return list(self.events), dead, [self.triple(p) for p in proto._to_add]
+
+    def add_real(self, peer, cls):
+        """cls: {'timeout': keys, 'error': keys, 'sendfail': keys}; every other contact answers its ping.
+        Returns (result, contacts a ping was addressed to, virtual seconds that passed)"""
+        self._attach(cls)
         start = self.now
         task = self.loop.create_task(self.protocol._add_peer(peer))
         spins = 0
@@ -260,6 +401,10 @@ def monitor_table(own, tab, bootstrap=False):
     return None
 
 
+SAME_ID_SIG = {'finding': 'C11-same-id-other-endpoint-replaces-without-probe'}
+CLASS_HITS = []
+
+
 def monitor_add(own, before, after, new, dead, ret, sendfail=(), probed=()):
     """before/after: flat contact lists; new: triple; dead: contacts that do NOT answer pings (timeout or error answer);
     sendfail: contacts the local socket cannot reach right now -- they still answer pings, they just cannot be asked"""
@@ -279,6 +424,18 @@ def monitor_add(own, before, after, new, dead, ret, sendfail=(), probed=()):
         if ret != 'True' or tuple(new) not in aft:
             return (f'newcomer {hx(new[0])} is closer than the K-th closest known contact '
                     f'({closer} known at least as close) but was not admitted (ret={ret})')
+    return None
+
+
+def monitor_same_id(before, after, new, dead, probed=()):
+    """the literal clause for a newcomer that claims a KNOWN node id from another endpoint: the stored contact, if it
+    still answers pings, may only lose its place after it was asked"""
+    aft = {tuple(p) for p in after}
+    for q in before:
+        if q[0] == new[0] and (q[1], q[2]) != (new[1], new[2]) and key_str(q[1], q[2]) not in dead \
+                and tuple(q) not in aft and not any(tuple(x) == tuple(q) for x in probed):
+            return (f'contact {hx(q[0])[:12]}.. is stored at {ip_str(q[1])}:{q[2]} and answers pings there; the same node id '
+                    f'arriving from {ip_str(new[1])}:{new[2]} replaced it without a ping to the stored endpoint')
     return None
 
 
@@ -329,9 +486,48 @@ class Outcome:
         self.counts = {}
         self.max_buckets = 1
         self.compared = 0
+        self.class_hits = []      # (op index, what): instances of the same-id-other-endpoint finding; they do not stop the case
 
     def count(self, k):
         self.counts[k] = self.counts.get(k, 0) + 1
+
+
+def mirror_task(model, impl, own, out, n, events, cls, cur):
+    """replays on the model, in the order observed, what the real routing_table_task did to the table (remove_peer / add_peer
+    calls, with the virtual time that passed); returns (violation text, last implementation observation, last model answer)"""
+    deadk = sorted(set(cls.get('timeout', [])) | set(cls.get('error', [])))
+    bad, iobs, m = None, None, None
+    for ev in events:
+        if ev['t0'] > cur:
+            model.call('tick', dt=ev['t0'] - cur)
+        cur = ev.get('t1', ev['t0'])
+        out.compared += 1
+        if ev['kind'] == 'remove':
+            m = model.call('remove', **peer_fields(*ev['peer']))
+            iobs = {'ret': 'None', 'probed': [], 'table': ev['table']}
+            m = {k: m[k] for k in ('ret', 'probed', 'table')}
+            out.count('task:remove_peer')
+        else:
+            model.call('report', **peer_fields(*ev['peer']))      # idempotent: a reply hands the responder over as well
+            m = model.call('drain_pick', dead=deadk, sendfail=cls.get('sendfail', []), wait=cur - ev['t0'],
+                           **peer_fields(*ev['peer']))
+            iobs = {'ret': ev['ret'], 'probed': ev.get('probed', []), 'table': ev.get('table'),
+                    'facts': {k: sorted(v) for k, v in ev['facts'].items()}}
+            m = {'ret': m.get('ret'), 'probed': m.get('probed'), 'table': m.get('table'),
+                 'facts': {k: sorted(v) for k, v in m.get('facts', {}).items()}}
+            out.count('task:add_peer:' + ev['ret'] + (':probe' if ev.get('probed') else ''))
+            bad = monitor_table(own, ev.get('table') or []) or \
+                monitor_add(own, ev['before'], ev.get('after', []), ev['peer'], set(deadk),
+                            'False' if ev['ret'] == 'OSError' else ev['ret'],
+                            set(cls.get('sendfail', [])), ev.get('probed', []))
+            hit = monitor_same_id(ev['before'], ev.get('after', []), ev['peer'], set(deadk), ev.get('probed', []))
+            if hit:
+                out.class_hits.append((n, hit))
+        if bad or vlib.canon(iobs) != vlib.canon(m):
+            return bad, iobs, m
+    if impl.now > cur:
+        model.call('tick', dt=impl.now - cur)
+    return bad, iobs, m
 
 
 def execute(model, case, rp=True):
@@ -392,10 +588,14 @@ def execute(model, case, rp=True):
                 iobs = {'ret': iret, 'probed': iprobed, 'table': impl.table(),
                         'facts': {k: sorted(v) for k, v in facts.items()}}
                 m['facts'] = {k: sorted(v) for k, v in m['facts'].items()}
+                m.pop('pending', None)
                 bad = monitor_table(own, iobs['table']) or \
                     monitor_add(own, before, impl.contacts(), [idv, addr, port], set(dead), iret)
                 out.count('add:' + iret + (':probe-reply' if iprobed and iret == 'False' else
                                            ':probe-timeout' if iprobed else ''))
+                hit = monitor_same_id(before, impl.contacts(), [idv, addr, port], set(dead), iprobed)
+                if hit:
+                    out.class_hits.append((n, hit))
             elif kind == 'radd':
                 idv, addr, port, cls = int(o[1], 16), o[2], o[3], o[4]
                 facts = impl.facts()
@@ -406,6 +606,7 @@ def execute(model, case, rp=True):
                 iobs = {'ret': iret, 'probed': iprobed, 'table': impl.table(),
                         'facts': {k: sorted(v) for k, v in facts.items()}}
                 m['facts'] = {k: sorted(v) for k, v in m['facts'].items()}
+                m.pop('pending', None)
                 bad = monitor_table(own, iobs['table']) or \
                     monitor_add(own, before, impl.contacts(), [idv, addr, port], set(deadk), iret,
                                 set(cls.get('sendfail', [])), iprobed)
@@ -414,6 +615,83 @@ def execute(model, case, rp=True):
                                                   ':local-send-failure' if pk in cls.get('sendfail', []) else
                                                   ':timeout' if pk in cls.get('timeout', []) else
                                                   ':error-answer' if pk in cls.get('error', []) else ':answered'))
+                hit = monitor_same_id(before, impl.contacts(), [idv, addr, port], set(deadk), iprobed)
+                if hit:
+                    out.class_hits.append((n, hit))
+            elif kind == 'rping':
+                req, c1 = [int(o[1][0], 16), o[1][1], o[1][2]], o[2]
+                k = key_str(req[1], req[2])
+                cls = {c1: [k]} if c1 != 'reply' else {}
+                t_begin = impl.now
+                iret, _, dt = impl.ping(impl.mk(*req), cls)
+                want = {'reply': 'reply', 'timeout': 'TimeoutError', 'error': 'RemoteException', 'sendfail': 'OSError'}[c1]
+                model.call('ping', outcome={'reply': 'reply', 'sendfail': 'local'}.get(c1, 'dead'), wait=dt,
+                           **peer_fields(*req))
+                out.count('rpc-ping:' + iret)
+                if iret != want:
+                    out.kind, out.what, out.at, out.impl, out.model = 'disagreement', 'C11.ping', n, iret, want
+                    return out
+                events, task_dead = impl.settle_events()
+                bad, iobs, m = mirror_task(model, impl, own, out, n, events, cls, t_begin + dt)
+                if bad:
+                    out.kind, out.what, out.at, out.impl = 'violation', bad, n, iobs
+                    return out
+                if iobs is not None and vlib.canon(iobs) != vlib.canon(m):
+                    out.kind, out.what, out.at, out.impl, out.model = 'disagreement', 'C11.routing_table_task', n, iobs, m
+                    return out
+                continue
+            elif kind == 'rrun':
+                first = [int(o[1][0], 16), o[1][1], o[1][2]]
+                during = [[int(x[0], 16), x[1], x[2]] for x in o[2]]
+                cls = o[3]
+                t_begin = impl.now
+                events, task_dead, left = impl.run_task(impl.mk(*first), [impl.mk(*c) for c in during], cls)
+                for c in [first] + during:
+                    model.call('report', **peer_fields(*c))
+                bad, iobs, m = mirror_task(model, impl, own, out, n, events, cls, t_begin)
+                if not bad:
+                    # the protocol-level clause: whoever was handed to KademliaProtocol.add_peer and is closer than the K-th
+                    # closest known contact has to be in the table once the maintenance task is idle (or dead) again
+                    final = impl.contacts()
+                    offered = [tuple(ev['peer']) for ev in events if ev['kind'] == 'add']
+                    for c in [first] + during:
+                        if c[0] == own or any(q == c for q in final):
+                            continue
+                        closer = sum(1 for q in final if (q[0] ^ own) <= (c[0] ^ own))
+                        if closer < K:
+                            why = ('it reached TreeRoutingTable.add_peer' if tuple(c) in offered else
+                                   'it never reached TreeRoutingTable.add_peer')
+                            bad = (f'contact {hx(c[0])[:12]}.. was handed to KademliaProtocol.add_peer and is closer than the K-th '
+                                   f'closest known contact ({closer} known at least as close) but is not in the table after the '
+                                   f'maintenance task went idle: {why}; routing_table_task '
+                                   f"{'died with ' + task_dead if task_dead else 'is alive'}, {len(left)} contact(s) left queued")
+                            break
+                out.count('task:run' + (':task-dead-' + task_dead if task_dead else '') +
+                          (':reported-during-probe' if during and any(e.get('probed') for e in events) else ''))
+                out.max_buckets = max(out.max_buckets, len(impl.rt.buckets))
+                if bad:
+                    out.kind, out.what, out.at, out.impl = 'violation', bad, n, iobs
+                    return out
+                if iobs is not None and vlib.canon(iobs) != vlib.canon(m):
+                    if task_dead:
+                        # the maintenance task is gone: show what that costs on the next contact this history hands over
+                        for n2 in range(n + 1, len(case['ops'])):
+                            o2 = case['ops'][n2]
+                            if o2[0] != 'rrun':
+                                continue
+                            c = [int(o2[1][0], 16), o2[1][1], o2[1][2]]
+                            impl.run_task(impl.mk(*c), [], o2[3])
+                            final = impl.contacts()
+                            closer = sum(1 for q in final if (q[0] ^ own) <= (c[0] ^ own))
+                            if c[0] != own and c not in final and closer < K:
+                                out.kind, out.at, out.impl = 'violation', n2, iobs
+                                out.what = (f'contact {hx(c[0])[:12]}.. was handed to KademliaProtocol.add_peer and is closer than '
+                                            f'the K-th closest known contact ({closer} known at least as close) but is never '
+                                            f'admitted: routing_table_task died with {task_dead} during an earlier liveness probe')
+                                return out
+                    out.kind, out.what, out.at, out.impl, out.model = 'disagreement', 'C11.routing_table_task', n, iobs, m
+                    return out
+                continue
             elif kind == 'add_noid':
                 iret, iprobed = impl.add(impl.mk(None, o[1], o[2]), set())
                 m = model.call('add_noid')
@@ -731,6 +1009,92 @@ class Gen:
         ops.append(['radd', hx(new ^ 1), base + 501, 4444, {'sendfail': keys[:4], 'timeout': keys[4:]}])
         return {'own': hx(own), 'ops': ops}
 
+    def _far_table(self, own, base, n_near=None):
+        """operations that build, through the real protocol, a table with a full far bucket [2^383, 2^384) that may not
+        split for far newcomers (K far contacts, all answering) and a few near contacts"""
+        rng = self.rng
+        half = 1 << 383
+        ops, far, near = [], [], []
+        for i, d in enumerate(rng.sample(range(1, 1 << 20), K)):
+            far.append([(half + d) ^ own, base + i, 4444])
+        for j, d in enumerate(rng.sample(range(1, 1 << 20), rng.choice([1, 2, 3]) if n_near is None else n_near)):
+            near.append([((1 << rng.randrange(100, 380)) + d) ^ own, base + 100 + j, 4444])
+        order = far + near
+        if rng.random() < 0.5:
+            rng.shuffle(order)
+        for c in order:
+            ops.append(['radd', hx(c[0]), c[1], c[2], {}])
+        return ops, far, near
+
+    def moved_endpoint_case(self):
+        """a contact X is talked to at endpoint A, then moves to endpoint B (A goes silent, the table learns X at B); later X is
+        the contact a full bucket probes for a far newcomer: the ping has to go to B, where X answers, so X keeps its place"""
+        rng = self.rng
+        own = rng.choice([0, M - 1]) if rng.random() < 0.2 else rng.getrandbits(BITS)
+        half = 1 << 383
+        base = BASE_IP + 70000
+        x = (half + rng.randrange(1, 1 << 20)) ^ own
+        a, b = base + 900, base + 901
+        ka = key_str(a, 4444)
+        ops = [['t', rng.choice([1, 1000])], ['radd', hx(x), a, 4444, {}], ['rping', [hx(x), a, 4444], 'reply']]
+        if rng.random() < 0.5:
+            ops.append(['t', rng.choice([1, 61, 800])])
+        ops.append(['radd', hx(x), b, 4444, {'timeout': [ka]}])          # X shows up at B; nobody answers at A any more
+        others = []
+        for i, d in enumerate(rng.sample(range(1 << 20, 1 << 21), K - 1)):
+            others.append([(half + d) ^ own, base + i, 4444])
+        others.append([((1 << rng.randrange(100, 380)) + 7) ^ own, base + 100, 4444])
+        rng.shuffle(others)
+        for c in others:
+            ops.append(['radd', hx(c[0]), c[1], c[2], {'timeout': [ka]}])
+        for c in others:                                                 # everybody else has just replied: X is the one to ask
+            ops.append(['replied', c[1], c[2]])
+        ops.append(['t', rng.choice([0, 1, 59])])
+        new = (half + (1 << 22) + rng.randrange(1 << 20)) ^ own
+        ops.append(['radd', hx(new), base + 500, 4444, {'timeout': [ka]}])   # X answers at B: newcomer refused
+        ops.append(['get', hx(x)])
+        ops.append(['radd', hx(new ^ 1), base + 501, 4444, {'timeout': [ka, key_str(b, 4444)]}])   # now X is really dead
+        return {'own': hx(own), 'ops': ops}
+
+    def queue_case(self):
+        """the real routing_table_task: a far newcomer makes it probe a slow (or dead, or quick) incumbent; while that probe is
+        in flight closer contacts are handed to KademliaProtocol.add_peer; none of them may be lost"""
+        rng = self.rng
+        own = rng.choice([0, M - 1]) if rng.random() < 0.2 else rng.getrandbits(BITS)
+        half = 1 << 383
+        base = BASE_IP + 80000
+        ops, far, near = self._far_table(own, base)
+        ops.insert(0, ['t', rng.choice([1, 1000])])
+        fk = [key_str(c[1], c[2]) for c in far]
+        new = [(half + (1 << 22) + rng.randrange(1 << 20)) ^ own, base + 500, 4444]
+        during = [[((1 << rng.randrange(20, 99)) + rng.randrange(1, 1000)) ^ own, base + 600 + i, 4444]
+                  for i in range(rng.choice([1, 1, 2]))]
+        cls = rng.choice([{'timeout': fk}, {'timeout': fk}, {'error': fk}, {}])
+        ops.append(['rrun', [hx(new[0]), new[1], new[2]], [[hx(c[0]), c[1], c[2]] for c in during], cls])
+        ops.append(['find', hx(own), K, None])
+        # a second round: the contacts now come one after the other
+        c2 = [((1 << rng.randrange(20, 99)) + rng.randrange(1000, 2000)) ^ own, base + 700, 4444]
+        ops.append(['rrun', [hx(c2[0]), c2[1], c2[2]], [], {}])
+        ops.append(['get', hx(c2[0])])
+        return {'own': hx(own), 'ops': ops}
+
+    def task_survives_case(self):
+        """one local send failure during a probe of the maintenance task; afterwards the task has to go on admitting"""
+        rng = self.rng
+        own = rng.choice([0, M - 1]) if rng.random() < 0.2 else rng.getrandbits(BITS)
+        half = 1 << 383
+        base = BASE_IP + 90000
+        ops, far, near = self._far_table(own, base)
+        ops.insert(0, ['t', rng.choice([1, 1000])])
+        fk = [key_str(c[1], c[2]) for c in far]
+        new = [(half + (1 << 22) + rng.randrange(1 << 20)) ^ own, base + 500, 4444]
+        ops.append(['rrun', [hx(new[0]), new[1], new[2]], [], {'sendfail': fk}])      # the ping cannot be sent
+        c = [((1 << rng.randrange(20, 99)) + rng.randrange(1, 1000)) ^ own, base + 600, 4444]
+        ops.append(['rrun', [hx(c[0]), c[1], c[2]], [], {}])                          # closer than the K-th closest: admitted
+        ops.append(['get', hx(c[0])])
+        ops.append(['rrun', [hx(new[0]), new[1], new[2]], [], {rng.choice(['timeout', 'error']): fk}])
+        return {'own': hx(own), 'ops': ops}
+
     def stale_kth_case(self):
         """the same scenario built from scratch (deterministic shape, random parameters): K far contacts filling the
         farthest bucket, K (or a few more) contacts close to the own id, then the three steps of stale_kth_macro"""
@@ -959,6 +1323,10 @@ def check_case(run, model, case, kind_label):
     run.count('max_buckets:' + ('1' if o.max_buckets == 1 else '2-4' if o.max_buckets <= 4 else
                                 '5-9' if o.max_buckets <= 9 else '10+'))
     run.disagreements_checked += o.compared
+    for at, what in o.class_hits:
+        run.count('finding:same-id-other-endpoint')
+        if len(CLASS_HITS) < 3:       # reported after everything else (see main), smallest histories preferred
+            CLASS_HITS.append(({'own': case['own'], 'ops': case['ops'][:at + 1]}, what))
     if o.kind and len(run.violations) + len(run.disagreements) >= 3:
         # enough shrunk reproducers already; record the rest unshrunk
         if o.kind == 'violation':
@@ -1021,7 +1389,8 @@ def main(run):
                 'counts None,0,1..1000,negative; in 30% of the histories the probe is the REAL ping of KademliaProtocol._add_peer '
                 '(get_rpc_peer().ping -> send_request -> _send) over a simulated socket whose per-contact behaviour is chosen: '
                 'answers / datagram lost (timeout on the virtual clock) / error answer / local sendto() raises OSError; '
-                'get_peer, the same queries through KademliaRPC.find_node / find_value of a real '
+                'other rpcs to contacts (ping) and endpoint moves of a known id; the real KademliaProtocol.routing_table_task fed '
+                'through KademliaProtocol.add_peer, also while one of its probes is in flight; get_peer, the same queries through KademliaRPC.find_node / find_value of a real '
                 'KademliaProtocol owning the table (requester inside/outside the table, key = requester id, K-1..K+2 contacts); plus the macro "far newcomer turned away by a full bucket, then one of '
                 'the K closest contacts removed or evicted, then a newcomer closer than the new K-th closest" inside random '
                 'histories and as histories built from scratch. distinct = distinct history; non-trivial = the table split at '
@@ -1044,6 +1413,15 @@ def main(run):
     # the liveness probe through the real protocol with a local send failure at exactly that ping
     for _ in range(vlib.scaled(run.tier, 10, 200)):
         check_case(run, model, gen.sendfail_case(), 'probe-local-send-failure')
+    # a contact that moved to another endpoint must be probed where the table knows it (seeded C11-15 shape)
+    for _ in range(vlib.scaled(run.tier, 8, 150)):
+        check_case(run, model, gen.moved_endpoint_case(), 'probe-after-endpoint-move')
+    # the real routing_table_task with contacts handed over while a probe is in flight (seeded C11-16 shape)
+    for _ in range(vlib.scaled(run.tier, 10, 200)):
+        check_case(run, model, gen.queue_case(), 'task-queue-during-probe')
+    # ... and after a local send failure of a probe (clean-tree finding 1)
+    for _ in range(vlib.scaled(run.tier, 6, 100)):
+        check_case(run, model, gen.task_survives_case(), 'task-after-local-send-failure')
     # closest-contacts queries through the RPC layer, every contact as requester, K-1..K+2 and more contacts known
     for _ in range(vlib.scaled(run.tier, 14, 300)):
         check_case(run, model, gen.rpc_case(), 'rpc-every-requester')
@@ -1056,8 +1434,15 @@ def main(run):
         if r:
             run.violation(dict(case, bootstrap=True, ops=case['ops'][:r[0] + 1]), r[1],
                           signature={'own': case['own'], 'ops': case['ops'][:r[0] + 1], 'bootstrap': True})
+    report_class_hits(run)
     run.partial = []
     model.close()
+
+
+def report_class_hits(run):
+    for case, what in sorted(CLASS_HITS, key=lambda cw: len(cw[0]['ops'])):
+        run.violation(case, what, signature=SAME_ID_SIG)
+    del CLASS_HITS[:]
 
 
 def replay(run, case):
@@ -1071,4 +1456,5 @@ def replay(run, case):
         return
     case = {'own': case['own'], 'ops': case['ops']}
     check_case(run, model, case, 'replay')
+    report_class_hits(run)
     model.close()
